@@ -17,7 +17,7 @@ CHECKS = {
     "C02": (
         "model_checking",
         "exhaustive enumeration of all expression trees <= k operator nodes of a reference expression model (render + expected AST), each rendering replayed on the real parser; renderer audited with gcc _Static_assert",
-        "Every expression tree with up to k operator nodes over all C operators, in three parenthesisation modes and eight expression contexts, is rendered from C99's grammar levels, parsed by the real parser and compared with the AST the model computes independently.",
+        "Every expression tree with up to k operator nodes over all C operators, in three parenthesisation modes and ten expression contexts, is rendered from C99's grammar levels, parsed by the real parser and compared with the AST the model computes independently.",
         "Bounded by operator count k; leaves are position-distinct identifiers/constants; the model's precedence knowledge is bound to gcc by a _Static_assert audit of constant-evaluable trees.",
         "DESIGN.md §3.B, §4.5, §5 C02", "tree-models"),
     "C03": (
